@@ -901,3 +901,27 @@ def nameCtor (first later : List (Nat × Nat)) (s : Str) : Option Str :=
   if matchNameLike first later (collapse s) then some (collapse s) else none
 
 end EPV.Lex
+
+/-! ## the string types: xs:string, xs:untypedAtomic, xs:normalizedString, xs:token -/
+namespace EPV.Lex
+
+/-- string.py `NormalizedString.__new__`: `Patterns.normalize.sub(' ', obj)` with `normalize = [\t\n\r]`; `validate` accepts
+every `str` (whiteSpace = replace) -/
+def normStrCtor (s : Str) : Str := s.map fun c => if c == '\t' || c == '\n' || c == '\r' then ' ' else c
+
+/-- `[^ \t\n\r]` -/
+def isTokCh (c : Char) : Bool := !(c == ' ' || c == '\t' || c == '\n' || c == '\r')
+
+/-- `XsdToken.pattern = ^[^ \t\n\r]*(?: [^ \t\n\r]+)*$` (`match`, Python's `$`): a space must be followed by a
+non-white character -/
+def tokScan : Str → Bool
+  | [] => true
+  | c :: rest =>
+    if isTokCh c then tokScan rest
+    else if c == ' ' then (match rest with | d :: _ => isTokCh d | [] => false) && tokScan rest
+    else c == '\n' && rest.isEmpty
+
+/-- string.py `XsdToken.__new__` on a `str`: collapse, then the pattern -/
+def tokenCtor (s : Str) : Option Str := if tokScan (collapse s) then some (collapse s) else none
+
+end EPV.Lex
